@@ -392,11 +392,64 @@ def check_plane_case(ctx: C.Ctx, pb, gs, ops, in_domain: bool, lines, impl_all, 
                                   "ops": [op_json(o) for o in small]}, f2[2], f2[3], tags))
 
 
+def gen_plane_seq_big(rng):
+    """Objects that cover MANY grid cells (around and beyond 256 / 1024 / 2048 cells of a fine grid), filed,
+    removed again and searched for afterwards: add -> find -> remove -> find -> iter, with small objects in
+    between.  (A layout page only reaches such cell counts at large scale factors.)"""
+    gs = 1
+    side = rng.choice([40, 48])
+    x0 = F(rng.randint(-20, 20))
+    y0 = F(rng.randint(-20, 20))
+    pb = (x0, y0, x0 + side, y0 + side)
+    ops = []
+    nid = 0
+    live: List[Box] = []
+
+    def big():
+        # w x h cells with w*h on and around the powers of two
+        w, h = rng.choice([(16, 16), (32, 32), (33, 31), (41, 25), (32, 33), (40, 40), (side, 27), (45, 46)])
+        w, h = min(w, side), min(h, side)
+        bx = x0 + rng.randint(0, side - w) + F(1, 4)
+        by = y0 + rng.randint(0, side - h) + F(1, 4)
+        return (bx, by, bx + w - F(1, 2), by + h - F(1, 2))     # spans exactly w x h cells
+
+    def small():
+        bx = x0 + F(rng.randint(0, 4 * side - 8), 4)
+        by = y0 + F(rng.randint(0, 4 * side - 8), 4)
+        return (bx, by, bx + F(rng.randint(1, 6), 4), by + F(rng.randint(1, 6), 4))
+
+    def around(o):
+        return (o.x0 + F(1, 8), o.y0 + F(1, 8), o.x0 + 1, o.y0 + 1)
+    for _ in range(rng.randint(1, 2)):
+        nid += 1
+        b = Box(nid, *big())
+        live.append(b)
+        ops.append(("add", b))
+        for _ in range(rng.randint(0, 2)):
+            nid += 1
+            sb = Box(nid, *small())
+            live.append(sb)
+            ops.append(("add", sb))
+        ops.append(("find", around(b)))
+        if rng.random() < 0.8:
+            live.remove(b)
+            ops.append(("remove", b))
+            ops.append(("find", around(b)))                      # the removed object must be gone
+            ops.append(("find", (b.x1 - 1, b.y1 - 1, b.x1 + 1, b.y1 + 1)))
+        ops.append(("iter",))
+    ops.append(("find", pb))
+    return pb, gs, ops
+
+
 def run_plane(ctx: C.Ctx) -> None:
     rng = ctx.rng
     lines: List[str] = []
     impl: List[str] = []
     inputs: List[Any] = []
+    for i in range(ctx.n(8, 120)):
+        pb, gs, ops = gen_plane_seq_big(rng)
+        ctx.branch("plane:many-cells")
+        check_plane_case(ctx, pb, gs, ops, True, lines, impl, inputs)
     for i in range(ctx.n(150, 6000)):
         wild = (i % 4 == 3)
         pb, gs, ops = gen_plane_seq(rng, rng.randint(3, 40), wild)
